@@ -75,6 +75,14 @@ def cases():
                     ['symlink', 'directory-emptied-through-a-link'], first_fail=None, props=('C05', 'C06', 'C09'),
                     expect={'exit': '0', 'applied': ['p0.patch', 'p1.patch'], 'tree': {'f': F['f'], 'keep': F['keep'], 'g': (_apply(b'g', 2, b'G2'), 0o755), 'd': (b'real', 'link')}, 'rejects': []}))
 
+    # ---- a name that cannot be the name of a file: refused like any other unusable name, before anything is written
+    for what, nm in (('ending in a slash', b'newdir/'), ('ending in /.', b'newdir/.'), ('of an existing file with a slash behind it', b'f/')):
+        bad = b'--- /dev/null\n+++ b/' + nm + b'\n@@ -0,0 +1 @@\n+x\n'
+        out.append(Case('patch creating a name %s' % what, F, {'p0.patch': mod(b'g', b'g', 2, b'G2'), 'p1.patch': bad}, ['p0.patch', 'p1.patch'], ['name-that-is-no-file-name'], first_fail=None,
+                        props=('C05', 'C06'), expect={'exit': '1', 'applied': [], 'tree': F, 'rejects': []}))
+    out.append(Case('git rename onto a name ending in a slash', F, {'p0.patch': b'diff --git a/f b/h/\nrename from f\nrename to h/\n'}, ['p0.patch'], ['name-that-is-no-file-name'], first_fail=None,
+                    props=('C05', 'C06'), expect={'exit': '1', 'applied': [], 'tree': F, 'rejects': []}))
+
     # ---- something is wrong with a patch behind the failing one: the push ends at the failing patch all the same
     bad_later = {
         'missing patch file': None,
